@@ -120,6 +120,9 @@ class Engine:
         self.hash_outputs = []    # per-path (name, input, output) of modelled hashes
         self.assumptions_used = set()
         self.prescribed_hashes = None
+        self.prescribe = set()    # names of modelled hashes whose model values are replayed natively
+        import os as _os
+        self.fork_sites = {} if _os.environ.get('VERIF_FORK_SITES') else None
 
     # -- solver plumbing -------------------------------------------------------------
     def _check(self, *extra):
@@ -206,6 +209,8 @@ class Engine:
             t_ok = self._check_side(cond)
             f_ok = self._check_side(ncond)
         if t_ok and f_ok:
+            if self.fork_sites is not None:
+                self._note_site()
             self.trace.append([True, True, payload])
             self._push(cond)
             if self._holds_in_model(cond) is not True:
@@ -230,6 +235,18 @@ class Engine:
         if r == z3.unsat:
             return False
         raise Abort('unknown', 'decide')
+
+    def _note_site(self):
+        import sys
+        f = sys._getframe(2)
+        chain = []
+        while f is not None and len(chain) < 4:
+            fn = f.f_code.co_filename
+            if not fn.endswith('symx.py'):
+                chain.append(f'{fn.rsplit("/", 1)[-1]}:{f.f_lineno}')
+            f = f.f_back
+        k = ' < '.join(chain)
+        self.fork_sites[k] = self.fork_sites.get(k, 0) + 1
 
     # -- obligations --------------------------------------------------------------
     def prove(self, prop, label, detail=None):
@@ -307,6 +324,13 @@ class Engine:
             elif kind == 'real':
                 v = model.eval(term, model_completion=True)
                 out[name] = {'real': [v.numerator_as_long(), v.denominator_as_long()]}
+        if self.prescribe:
+            hs = []
+            for hname, x, o in self.hash_outputs:
+                if hname in self.prescribe:
+                    hs.append([hname, concretize(x, model).hex(), concretize(o, model).hex()])
+            if hs:
+                out['__hashes__'] = hs
         return out
 
     # -- symbolic inputs ------------------------------------------------------------
